@@ -173,6 +173,24 @@ def build_pool(seed):
         grp = national_calls(rng, cc) + national_calls(rng, cc)
         grp.append({"op": "random", "cc": cc, "seed": rng.randrange(1000), "use_registry": True})
         groups.append(grp)
+    # the same bank-code text as a bank code of other countries (same field width), judged with national validation, before and
+    # after this country's own IBANs of that bank
+    from ._shared import field_siblings
+    n_fs = 0
+    for _ in range(12):
+        m = rng.choice([x for x in st["impl"] if st["by_method"].get(x)])
+        blz = rng.choice(st["by_method"][m])
+        sibs = field_siblings("DE", "bank_code", blz, rng, limit=2)
+        if not sibs:
+            continue
+        n_fs += 1
+        grp = [{"op": "iban", "text": t_, "validate_bban": True} for _, t_ in sibs]
+        for a in directed_accounts(rng, m)[:2]:
+            grp.append({"op": "iban", "text": de_iban(blz, a), "validate_bban": True})
+        grp += [{"op": "iban", "text": t_, "validate_bban": True} for _, t_ in sibs]
+        groups.append(grp)
+    if n_fs == 0:
+        raise HarnessError("no bank-code sibling groups could be built")
     # one object asked many questions in a row: the stricter question (national check digits / SWIFT compliance), which fails,
     # between the plain ones - the answers to the plain questions on that same object stay what they are for a fresh object
     n_reuse = 0
@@ -210,10 +228,18 @@ def build_pool(seed):
     R = real()
     odd = [k for k, es in sorted(R["idx"].items()) if len(es) >= 2 and k[0] in o.table
            and (not es[0].get("primary") or len(set(ref_candidates(es))) >= 2)]
-    chosen = rng.sample(odd, min(40, len(odd))) + rng.sample(keys, 10)
+    # every interesting key whose spelling has variants (letters: lower case; any: padded) is among the chosen ones
+    cased = [k for k in odd if k[1].lower() != k[1]]
+    chosen = list(dict.fromkeys(cased[:30] + rng.sample(odd, min(40, len(odd))) + rng.sample(keys, 10)))
     for cc, code in chosen:
         t = place_key(o, g, cc, code, rng)
         grp = [{"op": "from_bank_code", "cc": cc, "code": code}, {"op": "candidates", "cc": cc, "code": code}]
+        # other spellings of the same key before and after the listed one (whatever the library makes of them - in a fresh
+        # process and after the listed spelling was looked up)
+        for sp in dict.fromkeys([code.lower(), code.upper(), " " + code, code + " ", code.lower()]):
+            if sp != code:
+                grp += [{"op": "from_bank_code", "cc": cc, "code": sp}, {"op": "candidates", "cc": cc, "code": sp}]
+        grp.append({"op": "from_bank_code", "cc": cc, "code": code})
         if t:
             c = {"kind": "iban", "text": t}
             for what in ("bank", "bic", "bank_name", "bank_short_name", "snapshot"):
